@@ -76,6 +76,9 @@ pub enum Route {
     Direct,
     Url,
     Alternate,
+    /// opened through a URL that names the directory / database RELATIVE to the working directory (which the check
+    /// sets to its scratch directory), re-opened through the constructor with the absolute path
+    UrlRelative,
 }
 
 pub fn backend_url(base: Base, wrap: Wrap, path: &str) -> String {
@@ -102,8 +105,22 @@ pub fn open_backend_url(base: Base, wrap: Wrap, path: &str) -> Result<Dyn, Strin
 }
 
 fn open_routed(route: Route, nth_open: usize, base: Base, wrap: Wrap, path: &str) -> Result<Dyn, String> {
+    if route == Route::UrlRelative && nth_open % 2 == 0 {
+        // "file:<name>" / "sqlite:<name>" (opaque form, relative to the working directory = scratch())
+        let name = std::path::Path::new(path).file_name().and_then(|n| n.to_str()).unwrap_or("x").to_string();
+        let suffix = match wrap {
+            Wrap::Plain => "",
+            Wrap::Flate => "+flate",
+            Wrap::Brotli => "+brotli",
+        };
+        let url = format!("sqlite{}:{}", suffix, name);
+        let inner = call("get_adapter", move || melda::adapter::get_adapter(&url).map_err(|e| e.to_string()))
+            .map_err(|p| format!("panic:{}", p))
+            .and_then(|r| r)?;
+        return Ok(Arc::new(RwLock::new(inner)));
+    }
     let url = match route {
-        Route::Direct => false,
+        Route::Direct | Route::UrlRelative => false,
         Route::Url => true,
         Route::Alternate => nth_open % 2 == 0,
     };
@@ -125,11 +142,12 @@ enum AOp {
 }
 
 fn keys_universe(thorough: bool) -> Vec<&'static str> {
-    // "FFEE.PACK": same letters in another case (a suffix match must be exact)
+    // "FFEE.PACK": same letters in another case (a suffix match must be exact);
+    // "ffee.pack.old": the suffix inside the name, not at its end (must not be listed under ".pack")
     if thorough {
-        vec!["1-aaaa.delta", "1-aabb.delta", "ffee.pack", "ff00.pack", "FFEE.PACK"]
+        vec!["1-aaaa.delta", "1-aabb.delta", "ffee.pack", "ff00.pack", "FFEE.PACK", "ffee.pack.old"]
     } else {
-        vec!["1-aaaa.delta", "ffee.pack", "FFEE.PACK"]
+        vec!["1-aaaa.delta", "ffee.pack", "FFEE.PACK", "ffee.pack.old"]
     }
 }
 
@@ -284,9 +302,18 @@ fn adapter_bfs(rep: &mut Report, thorough: bool) {
     for b in [Base::Memory, Base::Dir, Base::SqliteFile, Base::SqliteMem] {
         for w in [Wrap::Plain, Wrap::Flate, Wrap::Brotli] {
             backends.push((b, w, Route::Direct));
-            backends.push((b, w, Route::Url));
-            if persistent(b) {
+            // quick tier: the URL routes of the SQLite bases and the alternating route are run on the plain wrapper
+            // only (the thorough tier runs the full product)
+            let sqlite = matches!(b, Base::SqliteFile | Base::SqliteMem);
+            if thorough || !sqlite || w == Wrap::Plain {
+                backends.push((b, w, Route::Url));
+            }
+            if persistent(b) && (thorough || w == Wrap::Plain) {
                 backends.push((b, w, Route::Alternate));
+            }
+            // (only SQLite: "file" is a special URL scheme whose path is always absolute - "file:name" means "/name")
+            if b == Base::SqliteFile && (thorough || w == Wrap::Plain) {
+                backends.push((b, w, Route::UrlRelative));
             }
         }
     }
@@ -403,7 +430,37 @@ fn large_value_pass(rep: &mut Report) {
             }
         }
     }
-    rep.set("large_value_pass", json!({"value_bytes": vals[0].len(), "sequences": runs}));
+    // one value beyond 1 MiB through each compressing wrapper (encoders that emit nothing before their first
+    // meta-block closes behave differently above that size): written once, read back whole and in three slices
+    // (poorly compressible throughout: a hash chain, not a repetition of the smaller value)
+    let mut huge: Vec<u8> = vec![];
+    let mut h = crate::world::sha_hex(b"very large value");
+    while huge.len() < 1_500_000 {
+        huge.extend_from_slice(h.as_bytes());
+        h = crate::world::sha_hex(h.as_bytes());
+    }
+    for w in [Wrap::Flate, Wrap::Brotli] {
+        runs += 1;
+        let path = fresh_path();
+        let r: Result<(), Value> = (|| {
+            let ad = open_backend(Base::Memory, w, &path).map_err(|e| json!({"error": "backend cannot be created", "message": e}))?;
+            call("write_object", || ad.read().unwrap().write_object("big.pack", &huge)).map_err(|p| json!({"error": "write_object panicked", "panic": p}))?.map_err(|e| json!({"error": "write_object failed", "message": e.to_string()}))?;
+            for (off, len) in [(0usize, 0usize), (0, 10), (huge.len() / 2, 1000), (huge.len() - 7, 7)] {
+                let got = call("read_object", || ad.read().unwrap().read_object("big.pack", off, len)).map_err(|p| json!({"error": "read_object panicked", "panic": p}))?.map_err(|e| json!({"error": "very large value cannot be read back", "offset": off, "length": len, "message": e.to_string()}))?;
+                let want: &[u8] = if off == 0 && len == 0 { &huge } else { &huge[off..off + len] };
+                if got != want {
+                    return Err(json!({"error": "very large value reads back differently", "offset": off, "length": len, "got_bytes": got.len(), "expected_bytes": want.len()}));
+                }
+            }
+            Ok(())
+        })();
+        rep.add_u64("evaluations", 4);
+        if let Err(mut d) = r {
+            d["input"] = json!({"backend": format!("Memory+{:?}", w), "value_bytes": huge.len()});
+            rep.violations.push(Violation { property: "C17".into(), signature: format!("C17:Memory+{:?}:very-large-value:{}", w, d["error"].as_str().unwrap_or("?")), scenario: "large-value".into(), history: vec![], detail: d });
+        }
+    }
+    rep.set("large_value_pass", json!({"value_bytes": vals[0].len(), "very_large_value_bytes": huge.len(), "sequences": runs}));
 }
 
 /// the same replica history over every backend must give the same views
@@ -538,6 +595,8 @@ fn run_history_on(b: Base, w: Wrap, m: &Arc<Menu>, h: &[Op], via_url: bool) -> R
 }
 
 pub fn run(thorough: bool) {
+    // relative URLs are resolved against the working directory
+    let _ = std::env::set_current_dir(scratch());
     let mut rep = Report::new("C17", if thorough { "thorough" } else { "quick" }, "model_checking");
     adapter_bfs(&mut rep, thorough);
     large_value_pass(&mut rep);
